@@ -1,7 +1,7 @@
 #!/venv/bin/python
 """Re-run every kept seeded change (seeded/<ID>_<name>/patch.diff) against its property's quick check.
 
-  tools/seeded_sweep.py [--seeds 1,2,3] [--only C04,C05]
+  tools/seeded_sweep.py [--seeds 1,2,3] [--only C04,C05] [--names C04_x,C05_y]
 
 Each patch is applied to a scratch copy of /repo in /dev/shm (never to /repo). CAUGHT = exit 1 at every seed,
 FLAKY = caught at some seeds only, MISSED = never caught."""
@@ -17,11 +17,14 @@ def main():
     a = sys.argv[1:]
     seeds = a[a.index("--seeds") + 1].split(",") if "--seeds" in a else ["1"]
     only = a[a.index("--only") + 1].split(",") if "--only" in a else None
+    names = a[a.index("--names") + 1].split(",") if "--names" in a else None  # full directory names
     bad = 0
     for d in sorted(glob.glob(os.path.join(ROOT, "seeded", "C*_*"))):
         name = os.path.basename(d)
         prop = name.split("_")[0]
         if only and prop not in only:
+            continue
+        if names and name not in names:
             continue
         patch = os.path.join(d, "patch.diff")
         try:
